@@ -8,12 +8,14 @@ Driver for C09.  Request line:   <op>|<arg>|<arg>|...
                      for lower-case two more fields: cased code points, case-ignorable code points
 Answer:            <model value>|<spec value>
   values: `S:<code points>`  `B:0|1`  `I:<int>`  `L:<ints>` (`L:` = empty sequence)  `ERR:<code>`
-ops: substring2 substring3 before after contains starts ends translate translate1 normalize concat join
+ops: conv ctoken substring2 substring3 before after contains starts ends translate translate1 normalize concat join
      length compare cpequal s2cp cp2s upper lower encode iri html
+     upperG lowerG (case tables of EPV/Gen/C09Case.lean, regenerated from the live CPython)
      hbefore hafter hcontains hstarts hends hcompare (HTML ASCII case-insensitive collation)
 -/
 import EPV.Proto
 import EPV.Model.Strings
+import EPV.Gen.C09Case
 open EPV.Proto
 open EPV.FOStrings (Str Num Err)
 open EPV
@@ -62,10 +64,7 @@ def parseTable (s : String) : Option (List (Nat × Str)) :=
       pure (k, v)
     | _ => none
 
-def tableFun (t : List (Nat × Str)) (c : Nat) : Str :=
-  match t.lookup c with
-  | some v => v
-  | none => [c]
+open EPV.Strings (tableFun inRanges)
 
 /-- a string or `-` (the empty sequence) -/
 def parseOStr (s : String) : Option (Option Str) :=
@@ -86,8 +85,33 @@ def pair (m s : String) : String := m ++ "|" ++ s
 abbrev md := Strings.argDefault
 abbrev sd := FOStrings.orEmpty
 
-def answer (line : String) : String :=
+def parseBool01 (s : String) : Option Bool :=
+  if s == "1" then some true else if s == "0" then some false else none
+
+/-- `B;1` `I;-12` `D;<neg>;<digits>;<exp>` `F;nan` `F;inf` `F;-inf` `F;<neg>;<digits>;<decpt>` -/
+def parseNumArg (s : String) : Option FOStrings.NumArg :=
+  match s.splitOn ";" with
+  | ["B", b] => (parseBool01 b).map .bool
+  | ["I", v] => (int? v).map .int
+  | ["D", n, c, e] => do
+    let n ← parseBool01 n; let c ← parseNats c; let e ← int? e
+    pure (.dec n c e)
+  | ["F", "nan"] => some .fnan
+  | ["F", "inf"] => some (.finf false)
+  | ["F", "-inf"] => some (.finf true)
+  | ["F", n, ds, p] => do
+    let n ← parseBool01 n; let ds ← parseNats ds; let p ← int? p
+    pure (.flt n ds p)
+  | _ => none
+
+def answerBase (line : String) : String :=
   match line.splitOn "|" with
+  | "ctoken" :: col :: tok :: input =>
+    match parseNats tok, input.mapM parseNats with
+    | some tok, some input =>
+      let c : FOStrings.Collation := if col == "h" then .htmlAscii else .codepoint
+      pair (vB (Strings.containsToken c input tok)) (vB (FOStrings.containsToken c input tok))
+    | _, _ => "bad-arg"
   | "concat" :: args =>
     match args.mapM parseOStr with
     | some l => pair (vS (Strings.concat (l.map md))) (vS (FOStrings.concat (l.map sd)))
@@ -153,6 +177,12 @@ def answer (line : String) : String :=
     match parseOStr s with
     | some s =>
       match op with
+      | "upperG" => pair (vS (Strings.upperCase (tableFun Gen.C09.upperTable) (md s)))
+          (vS (FOStrings.upperCase (tableFun Gen.C09.upperTable) (sd s)))
+      | "lowerG" => pair (vS (Strings.lowerCase (tableFun Gen.C09.lowerTable) (inRanges Gen.C09.casedRanges)
+            (inRanges Gen.C09.ignorableRanges) (md s)))
+          (vS (FOStrings.lowerCase (tableFun Gen.C09.lowerTable) (inRanges Gen.C09.casedRanges)
+            (inRanges Gen.C09.ignorableRanges) (sd s)))
       | "normalize" => pair (vS (Strings.normalizeSpace (md s))) (vS (FOStrings.normalizeSpace (sd s)))
       | "length" => pair (vI (Strings.stringLength (md s))) (vI (FOStrings.stringLength (sd s)))
       | "s2cp" => pair (vL (Strings.stringToCodepoints (md s))) (vL (FOStrings.stringToCodepoints (sd s)))
@@ -162,5 +192,27 @@ def answer (line : String) : String :=
       | _ => "bad-op"
     | none => "bad-arg"
   | _ => "bad-line"
+
+/-- `conv|<numarg>|<position>|<op>|<args…>`: the argument at `<position>` (0-based among `<args…>`,
+written `@` there) is a number or boolean converted by `string_value` (model) / XPath 1.0 `string()`
+(spec) before the string function `<op>` is applied; `conv|<numarg>` alone answers the conversion.
+A third answer field tells whether the F09g trigger predicate holds. -/
+def answer (line : String) : String :=
+  match line.splitOn "|" with
+  | "conv" :: na :: rest =>
+    match parseNumArg na with
+    | none => "bad-num"
+    | some a =>
+      let m := Strings.stringValue a
+      let s := FOStrings.xp1String a
+      let k := if Strings.xp1Trigger a then "1" else "0"
+      match rest with
+      | [] => vS m ++ "|" ++ vS s ++ "|" ++ k
+      | _ =>
+        let sub (v : Str) : String := "|".intercalate (rest.map fun f => if f == "@" then showNats v else f)
+        match (answerBase (sub m)).splitOn "|", (answerBase (sub s)).splitOn "|" with
+        | [mm, _], [_, ss] => mm ++ "|" ++ ss ++ "|" ++ k
+        | _, _ => "bad-conv " ++ answerBase (sub m)
+  | _ => answerBase line
 
 def main : IO Unit := mainLoop answer
